@@ -82,3 +82,20 @@ Definition dtype_eqb (a b : dtype) : bool :=
 Definition zeq (A B : zmat) : bool := (A : zV) == (B : zV).
 Definition nats_eqb (a b : seq nat) : bool := a == b.
 Definition bool_eqb (a b : bool) : bool := a == b.
+
+(* ---- operands scaled by a power of two (left vectors L = L' / s with L' integer) ----
+   For data (R, L'/s) the operator s * (1 - R (L'/s)^H) acts as  v |-> (s-1) v + (v - R (L'^H v)),
+   i.e. (s-1) v + apply (R, L') v  (Projector.apply_scaled); the same holds for every transform
+   of the object because exactly one of the two stored arrays carries the factor 1/s. *)
+Definition gscale (c : Z) (x : GZ) : GZ := ((c * x.1)%Z, (c * x.2)%Z).
+Definition zaxpy (c : Z) (X Y : zmat) : zmat :=
+  [seq [seq gadd (gscale c p.1) p.2 | p <- zip r.1 r.2] | r <- zip X Y].
+Definition zop_projector_scaled (s : Z) (n k : nat) (R L : zmat) : zop :=
+  ZOp (fun p X => zaxpy (s - 1) X (zapply n k p R L X))
+      (fun p X => zaxpy (s - 1) X (zapply_left n k p R L X)).
+(* s^2 * (P A P) and s^2 * (P A P)^H built as SciPy builds them *)
+Definition zPAPs (s : Z) (n k : nat) (R L A : zmat) : zop :=
+  zop_prod (zop_prod (zop_projector_scaled s n k R L) (zop_dense n A)) (zop_projector_scaled s n k R L).
+Definition zPAPs_H (s : Z) (n k : nat) (R L A : zmat) : zop :=
+  zop_prod (zop_projector_scaled s n k L R)
+           (zop_prod (zop_dense n (zctr n n A)) (zop_projector_scaled s n k L R)).
